@@ -13,6 +13,7 @@ import FuraxProofs.Props.C07
 import FuraxProofs.Props.C11
 import FuraxProofs.Props.C13
 import FuraxProofs.Props.C20
+import FuraxProofs.Sem.ListModel
 namespace Furax.C05
 open Furax Op
 
@@ -64,6 +65,19 @@ theorem reduce_keeps_structures {V} (A : ArithSem V) (laws : RuleLaws A) (extra 
     (fuel : Nat) (o r : Op) (hw : WTExpr A.invertible laws.leafOK o) (h : reduce fuel o = .ok r) :
     Op.inS r = Op.inS o ∧ Op.outS r = Op.outS o :=
   let ⟨_, h1, h2, _⟩ := Furax.reduce_sound A laws extra fuel o r hw h; ⟨h1, h2⟩
+
+/-- … with no law assumed (faithful list denotation): the reduced operator of a valid expression declares the same
+structures, and every valid operator really returns a vector of its declared output size -/
+theorem reduce_keeps_structures_closed (E : ListSem.Env) (fuel : Nat) (o r : Op)
+    (hw : WTExpr (ListSem.listArithSem E).invertible ListSem.listLeafOK o) (h : reduce fuel o = .ok r) :
+    Op.inS r = Op.inS o ∧ Op.outS r = Op.outS o :=
+  let ⟨_, h1, h2, _⟩ := ListSem.reduce_sound_closed E fuel o r hw h; ⟨h1, h2⟩
+
+/-- **declared output sizes are honest**: whatever the input, a structurally well-formed operator returns as many
+entries as `out_structure()` declares, and its transpose as many as `in_structure()` declares -/
+theorem declared_sizes_honest (E : ListSem.Env) (o : Op) (h : StructOK o) :
+    (∀ x, (ListSem.den E o x).length = (Op.outS o).size) ∧ (∀ y, (ListSem.denT E o y).length = (Op.inS o).size) :=
+  ⟨ListSem.den_length E o h, ListSem.denT_length E o h⟩
 
 /-- reduction keeps the typing of a chain (hence its input and output structures), for any rule list sound on
 operands satisfying an invariant `P` that implies structural well-formedness (for the registry: `WTExpr`,
